@@ -80,7 +80,7 @@ def meta_with_include(rng, include=None):
 # ---------------------------------------------------------------------------
 def polygon_vertices(rng, L, cx, cy, kind=None):
     kind = kind or rng.choice(['convex', 'star', 'star', 'random', 'bowtie', 'pentagram', 'repeat', 'collinear',
-                               'rectilinear', 'triangle'])
+                               'rectilinear', 'triangle', 'keyhole', 'hourglass'])
     if kind == 'triangle':
         n = 3
         pts = [(rng.uniform(-1, 1), rng.uniform(-1, 1)) for _ in range(n)]
@@ -115,6 +115,18 @@ def polygon_vertices(rng, L, cx, cy, kind=None):
             pts.append(p)
             if rng.random() < 0.5:
                 pts.append(p)
+    elif kind == 'keyhole':
+        # an outer ring and a hole ring joined by a zero-width bridge: the outline legitimately visits two vertices twice
+        n, m = rng.randint(4, 9), rng.randint(3, 7)
+        ro, ri, t0 = rng.uniform(0.7, 1), rng.uniform(0.15, 0.45), rng.uniform(0, 2 * math.pi)
+        outer = [(ro * math.cos(t0 + 2 * math.pi * k / n), ro * math.sin(t0 + 2 * math.pi * k / n)) for k in range(n)]
+        hole = [(ri * math.cos(t0 - 2 * math.pi * k / m), ri * math.sin(t0 - 2 * math.pi * k / m)) for k in range(m)]
+        pts = outer + [outer[0]] + hole + [hole[0]]
+    elif kind == 'hourglass':
+        # two triangles that touch in one shared vertex, which is listed twice (not consecutively)
+        a = rng.uniform(0.3, 1)
+        tip = (rng.uniform(-0.2, 0.2), rng.uniform(-0.2, 0.2))
+        pts = [tip, (-a, -1), (a, -1), tip, (rng.uniform(0.3, 1), 1), (-rng.uniform(0.3, 1), 1)]
     elif kind == 'collinear':
         pts = [(-1, -1), (0, -1), (0.5, -1), (1, -1), (1, 0), (1, 1), (0, 1), (-1, 1), (-1, 0.25)]
         pts = pts[:rng.randint(5, len(pts))]
@@ -257,6 +269,10 @@ def wcs_spec(rng, proj=None, parity=None, frame=None, scale=None, crval=None, co
            'CUNIT1': 'deg', 'CUNIT2': 'deg'}
     # the same linear transformation can be written three ways in a header: a CD matrix, PC + signed CDELT (the
     # classic East-left CDELT1 < 0), or PC = CD with unit CDELT (what WCS.to_header() writes for a CD-matrix WCS)
+    if rng.random() < 0.3:
+        # a header that also gives the image size (WCS.pixel_shape is then set); the reference pixel lies inside the image
+        hdr['NAXIS1'] = int(hdr['CRPIX1']) + rng.randint(1, 600)
+        hdr['NAXIS2'] = int(hdr['CRPIX2']) + rng.randint(1, 600)
     form = form or rng.choice(['cd', 'cd', 'cd', 'pc-signed-cdelt', 'pc-unit-cdelt'])
     if form != 'cd':
         for k in ('CD1_1', 'CD1_2', 'CD2_1', 'CD2_2'):
